@@ -181,6 +181,23 @@ def drive(arg):
                     break           # the larger points of the series would only burn the same budget again
             events.append({'cls': cls.__module__.replace('cryptoparser.', '') + '.' + cls.__qualname__, 'shape': name, 'points': points,
                            'seed_hex': sd[:60].hex()})
+    # lists of type-length-value items: the chain shapes once for every KIND of first item the accepted inputs of the class show
+    kinds = {bytes(s[2:4]) for s in seeds}
+    for sd in sorted([s for s in lib.get(cls, []) if 8 <= len(s) <= 1200], key=len):
+        if bytes(sd[2:4]) in kinds or len(kinds) > 14:
+            continue
+        kinds.add(bytes(sd[2:4]))
+        for name, pts in shapes_for(sd, sizes):
+            if not name.startswith('chain-greedy'):
+                continue
+            points = []
+            for size, declared, data in pts:
+                out, steps, depth = measure(cls, data)
+                points.append({'size': size, 'declared': min(declared, 2000000000), 'steps': min(steps, 2000000000), 'depth': depth, 'out': out})
+                if out == 'work-budget-exceeded':
+                    break
+            events.append({'cls': cls.__module__.replace('cryptoparser.', '') + '.' + cls.__qualname__, 'shape': name + ':' + sd[2:4].hex(),
+                           'points': points, 'seed_hex': sd[:60].hex()})
     return events
 
 
